@@ -1,37 +1,41 @@
 ---------------------------- MODULE Trace_Tokens ----------------------------
 (* Trace specification for C16: replays a recorded execution of the real         *)
-(* VersionManager / TokenManager through the actions of Tokens.tla.              *)
+(* VersionManager / TokenManager / TokenCache / LazyFreeList through the actions  *)
+(* of Tokens.tla.                                                                 *)
 EXTENDS Tokens, TraceIO, Known_Tokens
 
 VARIABLES l, subj, kf
 
-vars == <<live, mgrs, freed, l, subj, kf>>
+vars == <<live, mgrs, freed, lfl, pend, l, subj, kf>>
 
 TraceInit == TokInit /\ l = 1 /\ subj = [subject |-> "none"] /\ kf = {}
 
-TokOf(id) == CHOOSE t \in live : t.id = id
-
 Step(e) ==
-    \/ e.op = "mgr_new"   /\ NewManager(e.m, e.level, e.addr)
+    \/ e.op = "mgr_new"   /\ NewManager(e.m, e.level, e.addr, e.facts)
     \/ e.op = "mgr_drop"  /\ DropManager(e.m)
-    \/ e.op = "acq" /\ e.ok  /\ AcquireOk(e.id, e.m, e.kind, e.ver, e.tracked)
+    \* direct acquisitions and the acquisitions made by with_reader_token / with_writer_token
+    \* (logged by the closure when it starts): one action
+    \/ e.op = "acq" /\ e.ok  /\ AcquireOk(e.id, e.m, e.kind, e.ver, e.tracked, e.tk)
     \/ e.op = "acq" /\ ~e.ok /\ AcquireRefused(e.m, e.kind)
-    \* a token handed out of the per-thread cache: it was live all the time (it sat in the cache);
-    \* from now on its holder treats it as a token of manager e.m
-    \/ e.op = "acq_cached" /\ /\ \E t \in live : t.id = e.id
-                              /\ live' = (live \ {TokOf(e.id)}) \cup
-                                         {[id |-> e.id, kind |-> e.kind, ver |-> e.ver, mgr |-> e.m, tracked |-> e.tracked]}
-                              /\ UNCHANGED <<mgrs, freed>>
-                              /\ OneWriter'
-    \/ e.op = "cache_put" /\ (\E t \in live : t.id = e.id) /\ UNCHANGED <<live, mgrs, freed>>
+    \/ e.op = "acq_cached" /\ HandOutCached(e.id, e.m, e.kind, e.ver, e.tracked, e.tk)
+    \/ e.op = "cache_put" /\ CachePut(e.id)
+    \/ e.op = "cache_get" /\ e.hit  /\ CacheGet(e.id, e.kind, e.ver, e.valid)
+    \/ e.op = "cache_get" /\ ~e.hit /\ UNCHANGED <<live, mgrs, freed, lfl, pend>>
+    \/ e.op = "use"       /\ UseToken(e.id)
     \/ e.op = "rel_start" /\ ReleaseStart(e.id)
     \/ e.op = "release_cb" /\ ReleaseCallback(e.addr, e.expect)
     \/ e.op = "obs"       /\ Observe(e.m, e.min, e.ar, e.aw, e.quiet)
     \* stress runs: an observation of min made by the holder of token e.id while it holds it
     \/ e.op = "obs_own"   /\ (\E t \in live : t.id = e.id /\ (t.tracked /\ Sync(mgrs[t.mgr].level) => e.min <= t.ver))
-                          /\ UNCHANGED <<live, mgrs, freed>>
-    \/ e.op = "obs_counts" /\ CountsMatch(e.m, e.ar, e.aw) /\ UNCHANGED <<live, mgrs, freed>>
-    \/ e.op = "reclaim"   /\ Reclaim(e.m, e.ages)
+                          /\ UNCHANGED <<live, mgrs, freed, lfl, pend>>
+    \/ e.op = "obs_counts" /\ CountsMatch(e.m, e.ar, e.aw) /\ UNCHANGED <<live, mgrs, freed, lfl, pend>>
+    \/ e.op = "validate"  /\ Validate(e.m, e.ver, e.res, e.min, e.cur)
+    \/ e.op = "lf_new"    /\ NewLazyList(e.l, e.thr)
+    \/ e.op = "retire"    /\ Retire(e.l, e.off, e.age, e.len, e.bulk)
+    \/ e.op = "reclaim"   /\ Reclaim(e.m, e.l, e.min, e.items, e.ret, e.len, e.bulk, e.page, e.pcan)
+    \* harness bookkeeping without meaning for the contract (a second TokenManager front-end was
+    \* created over an existing VersionManager, ...)
+    \/ e.op = "note"      /\ UNCHANGED <<live, mgrs, freed, lfl, pend>>
     \* the scheduler could not finish the run (a thread never reached its next schedule point)
     \/ e.op \in {"stuck", "steplimit"} /\ FALSE
 
@@ -40,7 +44,8 @@ TraceNext ==
     /\ l' = l + 1
     /\ LET e == Rec[l] IN
        IF e.op = "reset"
-       THEN live' = {} /\ mgrs' = [x \in {} |-> 0] /\ freed' = {} /\ subj' = e /\ kf' = kf
+       THEN /\ live' = {} /\ mgrs' = [x \in {} |-> 0] /\ freed' = {}
+            /\ lfl' = [x \in {} |-> 0] /\ pend' = {} /\ subj' = e /\ kf' = kf
        ELSE /\ subj' = subj
             /\ IF UseKF /\ \E id \in KnownIds : DevApplies(id, e, subj)
                THEN \E id \in KnownIds : KnownDeviation(id, e, subj) /\ kf' = kf \cup {id}
